@@ -1,7 +1,10 @@
 //go:build verif
 
-// Contracts for the generated bindings of this package (property C05), derived mechanically by
-// /verif/tools/gencontracts.py from the generated source; checked by /verif/govc. Comments only.
+// Contracts for the generated bindings of this package, derived mechanically by /verif/tools/gencontracts.py;
+// checked by /verif/govc. Comments only. C05 (decoder totality): from the shape of the generated readers.
+// C03 (schema encoding): from the IDL file of the package - for a struct whose members are all scalars or
+// strings, WriteTo appends exactly the members in ascending tag order, each under its declared tag and wire
+// type, required ones always, optional ones unless equal to their declared default.
 
 package statf
 
@@ -29,6 +32,27 @@ package statf
 //@   ensures [C05] readBuf.buf.i >= p0
 //@   ensures [C05] validR(readBuf)
 //@   safety [C05]
+//
+//@ func (*StatMicMsgHead).WriteTo
+//@   requires st != nil && validB(buf) && len(st.MasterName) < 4294967296 && len(st.SlaveName) < 4294967296 && len(st.InterfaceName) < 4294967296 && len(st.MasterIp) < 4294967296 && len(st.SlaveIp) < 4294967296 && len(st.SlaveSetName) < 4294967296 && len(st.SlaveSetArea) < 4294967296 && len(st.SlaveSetID) < 4294967296 && len(st.TarsVersion) < 4294967296
+//@   let e0 = buf.buf.bytes
+//@   let e1 = e0 ++ encString(0, st.MasterName)
+//@   let e2 = e1 ++ encString(1, st.SlaveName)
+//@   let e3 = e2 ++ encString(2, st.InterfaceName)
+//@   let e4 = e3 ++ encString(3, st.MasterIp)
+//@   let e5 = e4 ++ encString(4, st.SlaveIp)
+//@   let e6 = e5 ++ encInt32(5, st.SlavePort)
+//@   let e7 = e6 ++ encInt32(6, st.ReturnValue)
+//@   let e8 = (st.SlaveSetName != "" ? e7 ++ encString(7, st.SlaveSetName) : e7)
+//@   let e9 = (st.SlaveSetArea != "" ? e8 ++ encString(8, st.SlaveSetArea) : e8)
+//@   let e10 = (st.SlaveSetID != "" ? e9 ++ encString(9, st.SlaveSetID) : e9)
+//@   let e11 = (st.TarsVersion != "" ? e10 ++ encString(10, st.TarsVersion) : e10)
+//@   let pre = e11
+//@   opaque head encInt8 encInt16 encInt32 encInt64 encString encBool
+//@   perreturn
+//@   modifies buf.buf.bytes
+//@   ensures [C03] err == nil && buf.buf.bytes == pre
+//@   safety [C03]
 //
 //@ func (*StatMicMsgBody).ResetDefault
 //@   requires st != nil
@@ -81,6 +105,25 @@ package statf
 //@   ensures [C05] validR(readBuf)
 //@   safety [C05]
 //
+//@ func (*StatSampleMsg).WriteTo
+//@   requires st != nil && validB(buf) && len(st.Unid) < 4294967296 && len(st.MasterName) < 4294967296 && len(st.SlaveName) < 4294967296 && len(st.InterfaceName) < 4294967296 && len(st.MasterIp) < 4294967296 && len(st.SlaveIp) < 4294967296
+//@   let e0 = buf.buf.bytes
+//@   let e1 = e0 ++ encString(0, st.Unid)
+//@   let e2 = e1 ++ encString(1, st.MasterName)
+//@   let e3 = e2 ++ encString(2, st.SlaveName)
+//@   let e4 = e3 ++ encString(3, st.InterfaceName)
+//@   let e5 = e4 ++ encString(4, st.MasterIp)
+//@   let e6 = e5 ++ encString(5, st.SlaveIp)
+//@   let e7 = e6 ++ encInt32(6, st.Depth)
+//@   let e8 = e7 ++ encInt32(7, st.Width)
+//@   let e9 = e8 ++ encInt32(8, st.ParentWidth)
+//@   let pre = e9
+//@   opaque head encInt8 encInt16 encInt32 encInt64 encString encBool
+//@   perreturn
+//@   modifies buf.buf.bytes
+//@   ensures [C03] err == nil && buf.buf.bytes == pre
+//@   safety [C03]
+//
 //@ func (*ProxyInfo).ResetDefault
 //@   requires st != nil
 //@   modifies *st
@@ -105,3 +148,14 @@ package statf
 //@   ensures [C05] readBuf.buf.i >= p0
 //@   ensures [C05] validR(readBuf)
 //@   safety [C05]
+//
+//@ func (*ProxyInfo).WriteTo
+//@   requires st != nil && validB(buf)
+//@   let e0 = buf.buf.bytes
+//@   let e1 = e0 ++ encBool(0, st.BFromClient)
+//@   let pre = e1
+//@   opaque head encInt8 encInt16 encInt32 encInt64 encString encBool
+//@   perreturn
+//@   modifies buf.buf.bytes
+//@   ensures [C03] err == nil && buf.buf.bytes == pre
+//@   safety [C03]
